@@ -146,6 +146,20 @@ def snapshot_cases():
     cases["return_through_discard_loops"] = [A.FuncStmt("g", [], False, [A.For(V("_"), A.lst(I(1), I(2)), [P(S("g body")), A.Return(S("left g"))]), P(S("WRONG")), A.Return(S("WRONG"))]), P(A.call("g")),
                                              A.FuncStmt("h", [], False, [A.For(A.lst(V("_"), V("_")), S("ab"), [A.For(V("_"), A.obj(("k", I(1))), [A.Return(I(9))]), P(S("WRONG"))]), A.Return(I(0))]), P(A.call("h")),
                                              A.For(V("_"), A.lst(I(1), I(2), I(3)), [A.If([(A.Bool(True), [A.Continue()])], None), P(S("WRONG"))]), A.For(V("_"), A.lst(I(1), I(2)), [P(S("once")), A.Break()])]
+    # the loop walks a snapshot also when the body changes the list only indirectly (through a call, a method, an alias)
+    cases["list_changed_through_call"] = [A.FuncStmt("bump", [V("ys"), V("k")], False, [A.If([(A.Bin("<", V("k"), I(3)), [A.Assign(A.Index(V("ys"), V("k")), I(99))])], None)]),
+                                          A.Declare(V("xs"), A.lst(I(1), I(2), I(3))), A.For(A.lst(V("i"), V("v")), V("xs"), [A.ExprStmt(A.call("bump", V("xs"), A.Bin("+", V("i"), I(1)))), P(V("v"))]), P(V("xs")),
+                                          A.Declare(V("al"), V("xs")), A.Declare(V("box"), A.obj(("l", V("xs")), ("set", A.FuncE([V("k")], False, [A.Assign(A.Index(A.Prop(V("this"), "l", False), V("k")), I(-1))])))),
+                                          A.For(A.lst(V("i"), V("v")), V("xs"), [A.ExprStmt(A.Call(A.Prop(V("box"), "set", False), [(I(2), False)])), P(V("v"))]), P(V("al")),
+                                          A.Declare(V("ob"), A.obj(("a", I(1)), ("b", I(2)))), A.FuncStmt("grow", [V("t")], False, [A.Assign(A.Index(V("t"), S("zz")), I(0)), A.Assign(A.Prop(V("t"), "b", False), I(50))]),
+                                          A.For(A.lst(V("k"), V("v")), V("ob"), [A.ExprStmt(A.call("grow", V("ob"))), P(V("k")), P(V("v"))]), P(V("ob"))]
+    # what follows a loop whose body always returns still runs when the loop does not iterate
+    cases["fallback_after_returning_loop"] = [A.FuncStmt("first", [V("xs")], False, [A.For(V("x"), V("xs"), [A.Return(A.Index(V("x"), I(1)))]), P(S("fallback")), A.Return(S("none"))]),
+                                              P(A.call("first", A.lst(I(7), I(8)))), P(A.call("first", A.lst())), P(A.call("first", S(""))), P(A.call("first", A.obj())),
+                                              A.FuncStmt("wait", [V("go")], False, [A.While(V("go"), [A.Return(S("ran"))]), A.Return(S("skipped"))]), P(A.call("wait", A.Bool(True))), P(A.call("wait", A.Bool(False))),
+                                              A.FuncStmt("cond", [V("c")], False, [A.If([(V("c"), [A.Return(S("then"))])], None), P(S("after if")), A.Return(S("fell through"))]), P(A.call("cond", A.Bool(True))), P(A.call("cond", A.Bool(False))),
+                                              A.FuncStmt("both", [V("c")], False, [A.If([(V("c"), [A.Return(S("then"))])], [A.Return(S("else"))]), P(S("WRONG")), A.Return(S("WRONG"))]), P(A.call("both", A.Bool(False))),
+                                              A.FuncStmt("blk", [], False, [A.Block([A.For(V("_"), A.lst(), [A.Return(I(1))])]), A.Return(I(2))]), P(A.call("blk"))]
     cases["empty_bodies"] = [A.For(V("_"), A.lst(I(1), I(2)), []), P(S("a")), A.Declare(V("n"), I(0)), A.While(A.Bin("<", V("n"), I(0)), []), P(S("b")),
                              A.FuncStmt("e", [], False, []), P(A.call("e")), A.Block([A.Block([P(S("c"))])]), A.For(V("_"), A.lst(), W()), A.For(V("_"), S(""), W()), A.For(V("_"), A.obj(), W()),
                              A.For(V("_"), A.Range(I(2), I(2)), W()), P(S("d"))]
